@@ -403,13 +403,25 @@ def _exists(target):
         return True
 
 
+def _b64_target(canon):
+    """(target, oid_name) of one of the four base64 helpers: located by its role in the wire format (contracts/c05roles.py), so that a
+    renamed private helper stays under its contract and keeps its obligation ids."""
+    actual = canon
+    try:
+        from contracts.c05roles import b64_roles
+        actual = b64_roles(loader.module(SER_PY).source).get(canon) or canon
+    except Exception:  # noqa
+        actual = canon
+    return f"{SER_PY}::{actual}", (canon if actual != canon else None)
+
+
 def contracts(reg):
     install_models(reg)
     out = []
 
     # ---- base64 helpers (library: base64 / utf-8 are ASSUMED inverse pairs; see c05lemmas.AXIOMS)
     out.append(FnContract(
-        target=f"{SER_PY}::_bytes_to_base64", params=[("data", p_pv(only=("Bytes",)))],
+        target=_b64_target("_bytes_to_base64")[0], oid_name=_b64_target("_bytes_to_base64")[1], params=[("data", p_pv(only=("Bytes",)))],
         returns=lambda c: VStr(sp.B64(V.bp(pvt(c, "data")))), note="base64 text of the payload"))
 
     def pos_restored(c):
@@ -426,17 +438,17 @@ def contracts(reg):
         return c.st.ghost[key] >= 0
 
     out.append(FnContract(
-        target=f"{SER_PY}::_bytesio_to_base64", params=[("buffer", p_pv(only=("BytesIO",)))],
+        target=_b64_target("_bytesio_to_base64")[0], oid_name=_b64_target("_bytesio_to_base64")[1], params=[("buffer", p_pv(only=("BytesIO",)))],
         hyps=materialise_pos,      # a stream position is a non-negative integer (library fact)
         returns=lambda c: VStr(sp.B64(V.iop(pvt(c, "buffer")))),
         ensures=[("stream-position-restored", pos_restored)],
         note="whole payload regardless of the current position; position restored"))
     out.append(FnContract(
-        target=f"{SER_PY}::_base64_to_bytes", params=[("data", p_pv())],
+        target=_b64_target("_base64_to_bytes")[0], oid_name=_b64_target("_base64_to_bytes")[1], params=[("data", p_pv())],
         returns=lambda c: PV(V.Bytes(sp.UNB64(sp.STROF(pvt(c, "data"))))),
         raises=[Raises("Exception", sub=True, label="not base64 text")]))
     out.append(FnContract(
-        target=f"{SER_PY}::_base64_to_bytesio", params=[("data", p_pv())],
+        target=_b64_target("_base64_to_bytesio")[0], oid_name=_b64_target("_base64_to_bytesio")[1], params=[("data", p_pv())],
         returns=lambda c: PV(V.BytesIO(sp.UNB64(sp.STROF(pvt(c, "data"))))),
         raises=[Raises("Exception", sub=True, label="not base64 text")]))
 
